@@ -189,8 +189,9 @@ func TestC10(t *testing.T) {
 func TestC14(t *testing.T) {
 	RunSeq(t, SeqCheck{
 		Prop: "C14",
-		Profile: Profile{Name: "epic-references", Weights: weightsWith(map[string]int{"new_task": 26, "set": 34, "new_epic": 10, "prune_yes": 7, "compact": 4, "plan": 4}),
-			BadRef: 35, Spoil: 3, Results: 2, MinSteps: 6, MaxSteps: 30},
+		Profile: Profile{Name: "epic-references", Weights: weightsWith(map[string]int{"new_task": 26, "set": 36, "new_epic": 10, "prune_yes": 9, "compact": 4, "plan": 4}),
+			BadRef: 35, Spoil: 3, Results: 2, MinSteps: 6, MaxSteps: 30, EpicPct: 45, StatePct: 55,
+			StatePool: []string{"doing", "doing", "error", "error", "done", "done", "canceled", "todo", "blocked"}},
 		Rule: "random command histories where --epic / epic is drawn from {live epic, live task, unknown, pruned epic, pruned task, \"\"} in new task and set (three input modes), with plan, prune, compact; non-trivial = a request whose epic id is not a live epic, or a prune/compact while some epic has members" + distinctRule,
 		NonTrivial: func(h []stepInfo) bool {
 			return anyStep(h, func(s stepInfo) bool {
